@@ -4,7 +4,8 @@
 (* is recorded (jobs/async_cli_command.py, extensions/generic_command).    *)
 (*  (1) Split: POSIX shell word splitting (shlex, posix mode) as a         *)
 (*      recursive operator over sequences of symbols: a c (word chars),    *)
-(*      s (space), q ('), d ("), b (backslash), x ($).  TLC enumerates     *)
+(*      s (space), t (tab), q ('), d ("), b (backslash), x ($), h (#: an   *)
+(*      ordinary character -- comments are off).  TLC enumerates           *)
 (*      every string up to MaxLen (configuration "machine") and checks the *)
 (*      algebraic sanity of the automaton.                                 *)
 (*  (2) Validation of launches recorded from the real code.                *)
@@ -12,7 +13,8 @@
 EXTENDS Naturals, Integers, Sequences, FiniteSets, TLC, Json, IOUtils
 
 CONSTANTS MaxLen, Mode
-Alphabet == {"a", "c", "s", "q", "d", "b", "x"}
+Alphabet == {"a", "c", "s", "t", "q", "d", "b", "x", "h"}
+WS == {"s", "t"}        \* blank, tab
 
 \* st: "ws" between words, "word", "sq" in single quotes, "dq" in double quotes, "esc" after an unquoted backslash,
 \* "dqesc" after a backslash inside double quotes
@@ -24,13 +26,13 @@ Tok(s, i, st, cur, toks) ==
      ELSE [ok |-> TRUE, toks |-> toks]
   ELSE LET c == s[i] IN
     CASE st = "ws" ->
-           IF c = "s" THEN Tok(s, i + 1, "ws", <<>>, toks)
+           IF c \in WS THEN Tok(s, i + 1, "ws", <<>>, toks)
            ELSE IF c = "q" THEN Tok(s, i + 1, "sq", <<>>, toks)
            ELSE IF c = "d" THEN Tok(s, i + 1, "dq", <<>>, toks)
            ELSE IF c = "b" THEN Tok(s, i + 1, "esc", <<>>, toks)
            ELSE Tok(s, i + 1, "word", <<c>>, toks)
       [] st = "word" ->
-           IF c = "s" THEN Tok(s, i + 1, "ws", <<>>, Append(toks, cur))
+           IF c \in WS THEN Tok(s, i + 1, "ws", <<>>, Append(toks, cur))
            ELSE IF c = "q" THEN Tok(s, i + 1, "sq", cur, toks)
            ELSE IF c = "d" THEN Tok(s, i + 1, "dq", cur, toks)
            ELSE IF c = "b" THEN Tok(s, i + 1, "esc", cur, toks)
@@ -57,9 +59,9 @@ MNext == Len(cmd) < MaxLen /\ \E c \in Alphabet : cmd' = Append(cmd, c) /\ i' = 
 \* sanity of the automaton on every enumerated string
 RECURSIVE Flat(_)
 Flat(t) == IF t = <<>> THEN <<>> ELSE Head(t) \o Flat(Tail(t))
-PlainWords == (\A k \in 1..Len(cmd) : cmd[k] \in {"a", "c", "x", "s"}) =>
+PlainWords == (\A k \in 1..Len(cmd) : cmd[k] \in {"a", "c", "x", "h", "s", "t"}) =>
                  /\ Split(cmd).ok
-                 /\ Flat(Split(cmd).toks) = SelectSeq(cmd, LAMBDA ch : ch # "s")
+                 /\ Flat(Split(cmd).toks) = SelectSeq(cmd, LAMBDA ch : ch \notin WS)
                  /\ \A k \in 1..Len(Split(cmd).toks) : Split(cmd).toks[k] # <<>>
 NoQuoteCharsLeft == Split(cmd).ok /\ (\A k \in 1..Len(cmd) : cmd[k] # "b") /\ (\A k \in 1..Len(cmd) : cmd[k] # "q") =>
                        \A k \in 1..Len(Split(cmd).toks) : \A n \in 1..Len(Split(cmd).toks[k]) : Split(cmd).toks[k][n] # "d"
